@@ -638,17 +638,21 @@ impl Indexable for ast::ArgValue {
                 Some((None, typ, positional.syntax().text_range()))
             }
             ast::ArgValue::NamedArgValue(named) => {
-                let ast::SimpleValue::String(name) =
-                    named.name()?.inner_values().next()?.simple_value()?
-                else {
-                    ctx.error(
-                        named.syntax().text_range(),
-                        "the name of named argument should be a valid identifier",
-                    );
-                    return None;
+                // `Foo<a = 1>`: the name is written as an identifier (TableGen reads an identifier
+                // followed by `=` as the parameter's name); a string literal is accepted as well
+                let name = match named.name()?.inner_values().next()?.simple_value()? {
+                    ast::SimpleValue::Identifier(name) => name.value()?,
+                    ast::SimpleValue::String(name) => name.value(),
+                    _ => {
+                        ctx.error(
+                            named.syntax().text_range(),
+                            "the name of named argument should be a valid identifier",
+                        );
+                        return None;
+                    }
                 };
                 let typ = named.value()?.index(ctx)?;
-                Some((Some(name.value()), typ, named.syntax().text_range()))
+                Some((Some(name), typ, named.syntax().text_range()))
             }
         }
     }
